@@ -352,6 +352,14 @@ STMTS = [
     ("alter table s2.t1 set comment = 'altered'", ("DB1", "S2", "T1"), "altered", []),
     ("alter table t1 add column extra varchar(12)", ("DB1", "S1", "T1"), None, [("EXTRA", 12)]),
     ("create table tq as select cast(a as varchar(4)) as av from t1", ("DB1", "S1", "TQ"), None, [("AV", 4)]),
+    # statements that carry OTHER table properties but declare no comment record no comment (not NULL, not the text 'None')
+    ("create transient table tr (a int)", ("DB1", "S1", "TR"), None, []),
+    ("create temporary table tmp1 (a int)", ("DB1", "S1", "TMP1"), None, []),
+    ("create or replace temp table tmp2 as select a from t1", ("DB1", "S1", "TMP2"), None, []),
+    ("create table tcl (a int) cluster by (a)", ("DB1", "S1", "TCL"), None, []),
+    ("create or replace transient table t2 (a int) comment = 'kept'", ("DB1", "S1", "T2"), "kept", []),
+    ("merge into t1 using t2 on t1.a = t2.a when matched then delete", ("DB1", "S1", "T1"), None, []),
+    ("merge into s2.t1 using t2 on t1.a = t2.a when not matched then insert (a) values (t2.a)", ("DB1", "S2", "T1"), None, []),
 ]
 
 
@@ -394,7 +402,7 @@ def _bookkeeping(si: int) -> bool:
 @ob(
     "C09.metadata_rows_are_keyed_by_the_named_object",
     encodes=["fakesnow.cursor.FakeSnowflakeCursor._execute (comment / text-length bookkeeping)", "fakesnow.transforms.extract_comment_on_table", "extract_text_length", "fakesnow.info_schema.insert_table_comment_sql / insert_text_lengths_sql"],
-    bounds="9 statements declaring a comment and/or VARCHAR lengths (CREATE [OR REPLACE] TABLE, CTAS, COMMENT ON, ALTER SET COMMENT, ALTER ADD COLUMN) at "
+    bounds="16 statements: 9 declaring a comment and/or VARCHAR lengths (CREATE [OR REPLACE] TABLE, CTAS, COMMENT ON, ALTER SET COMMENT, ALTER ADD COLUMN) and 7 that declare none but carry other table properties or create helper tables (TRANSIENT, TEMPORARY, CLUSTER BY, MERGE) at "
     "all three qualification levels from a session on db1.s1: exactly one upsert per declared fact, into the side table of the table's own database, "
     "keyed by (database, schema, table[, column]) of the object the statement names, carrying the declared comment / length / octet length",
     timeout=(300, 600),
@@ -407,6 +415,30 @@ def bookkeeping(si: int) -> bool:
     post: _
     """
     return done(fast.native(_bookkeeping, fast.pick(si, len(STMTS))))
+
+
+def _real_bookkeeping(a: dict):
+    from vf.real import real_cursor
+
+    sql, (db, sc, tb), comment, _lengths = STMTS[a["si"]]
+    fs, conn, cur = real_cursor(False)
+    for ddl in (
+        "create schema db1.s2", "create database db2", "create schema db2.s1", "create schema db2.s3", "create table db1.s1.t1 (a int, b varchar)",
+        "create table db1.s1.t2 (a int)", "create table db1.s2.t1 (a int)", "create table db2.s1.t1 (a int)", "insert into t2 values (1)",
+    ):  # fmt: skip
+        cur.execute(ddl)
+    try:
+        cur.execute(sql)
+    except Exception as e:  # noqa: BLE001
+        return None, f"statement failed on the real stack: {type(e).__name__}: {str(e)[:120]}"
+    rows = []
+    for d in ("DB1", "DB2"):
+        rows += cur.execute(f"select ext_table_catalog, ext_table_schema, ext_table_name, comment from {d}.information_schema._fs_tables_ext").fetchall()
+    want = [(db, sc, tb, comment)] if comment is not None else []
+    return sorted(rows) != want, f"real stack: table-comment rows after {sql!r}: {rows}, expected {want}"
+
+
+REGISTRY["C09.metadata_rows_are_keyed_by_the_named_object"].real_replay = _real_bookkeeping
 
 
 # ------------------------------------------------------------------ scope plumbing of DESCRIBE / SHOW SCHEMAS / SHOW KEYS
